@@ -16,7 +16,10 @@ theorem bus_exactly_once_in_order (h : Handler) (ops : List BusOp) (rank : Topic
     (fuel : Nat) (hfuel : 2 * N + 2 ≤ fuel) (k : Cid) (T : Topic) :
     let b := ops.foldl (Bus.apply h fuel) {}
     b.received k T = if k ∈ b.subsOf T then b.log T else [] := by
-  sorry
+  -- the invariant holds for every fuel (a fuel cut drops a publication *atomically*), so
+  -- the bounds `hN`, `hfuel` are not needed for this direction
+  intro b
+  exact (fun _ _ => bus_inv_of_history hstrat honce fuel k T) hN hfuel
 
 /-- the topic logs are exactly what was produced (top level and re-entrantly), so with no
 handlers publishing the log of `T` is the list of values produced to `T` in order. -/
@@ -25,23 +28,29 @@ theorem log_no_handlers (ops : List BusOp) (fuel : Nat) (hfuel : 1 ≤ fuel) (T 
       ops.filterMap (fun op => match op with
         | .produce T' v => if T' = T then some v else none
         | .subscribe _ _ => none) := by
-  sorry
+  obtain ⟨n, rfl⟩ : ∃ n, fuel = n + 1 := ⟨fuel - 1, by omega⟩
+  rw [fold_noHandler_log]
+  simp only [Bus.log, agetD, alookup, Option.getD_none, List.nil_append]
+  rfl
 
 /-- necessity of `SubscribeOnce`: subscribing twice replays the log twice. -/
 theorem resubscribe_duplicates :
     let ops := [BusOp.produce "t" 1, .produce "t" 2, .subscribe 0 ["t"], .subscribe 0 ["t"]]
     (ops.foldl (Bus.apply (fun _ _ => []) 4) {}).received 0 "t" = [1, 2, 1, 2] := by
-  sorry
+  simp [Bus.apply, Bus.subscribe, Bus.replay, Bus.push, Bus.deliverAll, Bus.deliver, Bus.pushAll,
+    Bus.received, Bus.subsOf, Bus.log, agetD, alookup, upsert, sinsert]
 
 /-- **distinct components never share an input or output topic**, and no input topic is
 an output topic. -/
 theorem topic_injective (a b : Comp) (hab : a ≠ b) :
     inputTopic a ≠ inputTopic b ∧ outputTopic a ≠ outputTopic b ∧
     inputTopic a ≠ outputTopic b ∧ outputTopic a ≠ inputTopic b := by
-  sorry
+  refine ⟨fun h => hab (topic_cancel _ _ _ _ h), fun h => hab (topic_cancel _ _ _ _ h),
+    topic_ne_of_suffix _ _ _ _ _ (by decide) (by decide),
+    topic_ne_of_suffix _ _ _ _ _ (by decide) (by decide)⟩
 
-theorem topic_in_ne_out (a b : Comp) : inputTopic a ≠ outputTopic b := by
-  sorry
+theorem topic_in_ne_out (a b : Comp) : inputTopic a ≠ outputTopic b :=
+  topic_ne_of_suffix _ _ _ _ _ (by decide) (by decide)
 
 /-! non-vacuity: a stratified re-entrant history -/
 def exHandler : Handler := fun k v => if k = 0 then [("u", v + 10)] else []
@@ -49,8 +58,21 @@ def exOps : List BusOp :=
   [.subscribe 0 ["t"], .produce "t" 1, .subscribe 1 ["u"], .produce "t" 2, .subscribe 2 ["t"]]
 
 example : Stratified exHandler exOps (fun T => if T = "u" then 1 else 0) := by
-  sorry
+  intro k v T' v' hmem T hT
+  unfold exHandler at hmem
+  split at hmem
+  · subst k
+    simp at hmem
+    obtain ⟨rfl, _⟩ := hmem
+    simp [subscribedTopics, exOps] at hT
+    subst hT
+    decide
+  · simp at hmem
 example : SubscribeOnce exOps := by
-  sorry
+  intro (k : Nat)
+  unfold subscribedTopics exOps
+  simp only [List.flatMap_cons, List.flatMap_nil]
+  by_cases h0 : 0 = k <;> by_cases h1 : 1 = k <;> by_cases h2 : 2 = k <;>
+    first | omega | simp [h0, h1, h2]
 
 end Tickit
